@@ -72,6 +72,22 @@ void ob_c16b_trace(const farr<3,3>& a, const farr<2,3,3>& b)
     { auto r = view::trace(a); OBLIGE("C16.rt.trace.has_value", nm::has_value(r), 0); OBLIGE("C16.rt.trace.sum_of_the_diagonal", (long)static_cast<long>(nm::unwrap(r)) == SUM3(a(t,t)), 0); }
     { auto r = view::trace(b); OBLIGE("C16.rt.trace.rank3_has_value", nm::has_value(r), 1); auto v = nm::unwrap(r); EXPECT_VIEW1("C16.rt.trace.rank3_default_axes_are_0_and_1", "C16.rt.trace.rank3_element", v, 3, SUM2(b(t,t,i)), 1); }
 }
+// trace with an offset of either sign on axis pairs of DIFFERENT extent (tall and wide), chosen axes on rank 3:
+//   trace(a, k, ax1, ax2)[..] = sum_t a[.. t - min(k,0) on ax1 .., t + max(k,0) on ax2 ..], t < length of that diagonal
+void ob_c16b_trace_offsets(const farr<4,3,2>& a)
+{
+    cv::assume_shape<4,3,2>(a);
+    constexpr size_t O = 0;
+    // axes (0,2): extents 4 and 2 (tall). offset -1: rows 1.., length min(4-1,2) = 2; offset -3: length 1; offset +1: length min(4, 2-1) = 1
+    { auto r = view::trace(a, -1, 0, 2); OBLIGE("C16.rt.trace.offset_has_value", nm::has_value(r), 10); auto v = nm::unwrap(r); EXPECT_VIEW1("C16.rt.trace.offset_shape", "C16.rt.trace.below_the_main_diagonal_of_a_tall_pair", v, 3, a(O+1,i,O) + a(O+2,i,O+1), 10); }
+    { auto r = view::trace(a, -3, 0, 2); OBLIGE("C16.rt.trace.offset_has_value", nm::has_value(r), 11); auto v = nm::unwrap(r); EXPECT_VIEW1("C16.rt.trace.offset_shape", "C16.rt.trace.below_the_main_diagonal_of_a_tall_pair", v, 3, a(O+3,i,O), 11); }
+    { auto r = view::trace(a, 1, 0, 2);  OBLIGE("C16.rt.trace.offset_has_value", nm::has_value(r), 12); auto v = nm::unwrap(r); EXPECT_VIEW1("C16.rt.trace.offset_shape", "C16.rt.trace.above_the_main_diagonal_of_a_tall_pair", v, 3, a(O,i,O+1), 12); }
+    // axes (2,0): extents 2 and 4 (wide). offset -1: length min(2-1, 4) = 1; offset +2: length min(2, 4-2) = 2
+    { auto r = view::trace(a, -1, 2, 0); OBLIGE("C16.rt.trace.offset_has_value", nm::has_value(r), 13); auto v = nm::unwrap(r); EXPECT_VIEW1("C16.rt.trace.offset_shape", "C16.rt.trace.below_the_main_diagonal_of_a_wide_pair", v, 3, a(O,i,O+1), 13); }
+    { auto r = view::trace(a, 2, 2, 0);  OBLIGE("C16.rt.trace.offset_has_value", nm::has_value(r), 14); auto v = nm::unwrap(r); EXPECT_VIEW1("C16.rt.trace.offset_shape", "C16.rt.trace.above_the_main_diagonal_of_a_wide_pair", v, 3, a(O+2,i,O) + a(O+3,i,O+1), 14); }
+    // axes (1,2): extents 3 and 2. offset -1: length min(3-1, 2) = 2
+    { auto r = view::trace(a, -1, 1, 2); OBLIGE("C16.rt.trace.offset_has_value", nm::has_value(r), 15); auto v = nm::unwrap(r); EXPECT_VIEW1("C16.rt.trace.offset_shape", "C16.rt.trace.below_the_main_diagonal_of_a_tall_pair", v, 4, a(i,O+1,O) + a(i,O+2,O+1), 15); }
+}
 void ob_c16b_negctl(const farr<2,3>& a, const farr<3,2>& b)
 {
     cv::assume_shape<2,3>(a); cv::assume_shape<3,2>(b);
